@@ -1,10 +1,14 @@
 package transaction
 
-// Demonstration for KNOWN FINDING C07/C17 hash-canonical: NewTransactionFromBytes (used for transactions
+// Demonstration for finding 3 (C07/C17 hash-canonical, repaired): NewTransactionFromBytes (used for transactions
 // arriving in P2P "tx" messages and over RPC) hashes and sizes the RECEIVED bytes, while io.BinReader.ReadVarUint
 // accepts non-minimal length prefixes. The same transaction content encoded with `fd 01 00` instead of `01` for
 // the signer count therefore gets another Hash() and Size() than the canonical encoding that block peers
 // (and this node itself after re-encoding) compute: identity depends on the path by which the bytes arrived.
+// The test fails on the tree before the repair and passes after it: a decoder may refuse the other encodings (the
+// repair does), or accept them and give the content its one identity - what it may not do is accept them under another.
+// This test uses a non-minimal length prefix; a group key in uncompressed form and a boolean other than 0/1 are other
+// encodings of one content that the same repair refuses.
 // Copy into /repo/pkg/core/transaction/ and run: go test -run TestVerifDemoHashIndependentOfLengthPrefix ./pkg/core/transaction/
 
 import (
@@ -28,7 +32,9 @@ func TestVerifDemoHashIndependentOfLengthPrefix(t *testing.T) {
 	alt := bytes.Join([][]byte{canonical[:off], {0xfd, 0x01, 0x00}, canonical[off+1:]}, nil)
 
 	got, err := NewTransactionFromBytes(alt)
-	require.NoError(t, err, "the non-minimal encoding is accepted by the decoder")
+	if err != nil {
+		return // refused: nothing has two identities
+	}
 	// Same content...
 	reenc, err := NewTransactionFromBytes(got.Bytes())
 	require.NoError(t, err)
